@@ -40,6 +40,20 @@ def run_impl_case(case):
                 if not same:
                     bad.append(dict(kind='dump_changes_value', what='a dumped scalar (%s) reads back as a different value' % wname, text=text, got=show(back, ident=False)[:100], dumper=D.__name__, loader=L.__name__)); break
         return dict(bad=bad)
+    if isinstance(case, list) and case[0] == 'hist':
+        # history probe: once per worker, subclasses of the stock loader / dumper register implicit resolvers of their own (a
+        # YAML 1.2 style float, on first characters the stock table already has; a wildcard one); the STOCK classes must go on
+        # typing every text by the YAML 1.1 rules
+        if not getattr(run_impl_case, '_hist', False):
+            import re as _re
+            class L2(yaml.SafeLoader): pass
+            class D2(yaml.SafeDumper): pass
+            for C in (L2, D2):
+                C.add_implicit_resolver('tag:yaml.org,2002:float', _re.compile(r'^[-+]?[0-9]+[eE][-+]?[0-9]+$'), list('-+0123456789'))
+                C.add_implicit_resolver('!any', _re.compile(r'^anything$'), None)
+            yaml.add_implicit_resolver('!x', _re.compile(r'^xx$'), ['x'], Loader=L2, Dumper=D2)
+            run_impl_case._hist = True
+        case = case[1]
     s = case
     exp = spec11.spec_tag(s)
     short = exp.rsplit(':', 1)[1]
